@@ -31,7 +31,7 @@ TECHNIQUE = ("Lean 4 refinement proof (simulation invariant, induction on the op
 DESIGN_REF = "DESIGN.md §5 C16"
 MODULES = ["TypelibModel.Props.C16"]
 TABLES = False
-RULE = ("operation sequences over the closed key family (int, str, a synthesised dataclass Foo) x {itself, NewType, TypeAliasType, "
+RULE = ("operation sequences over the closed key family (int, str, a synthesised generic dataclass Foo(Generic[T]), used unsubscripted) x {itself, NewType, TypeAliasType, "
         "string-valued TypeAliasType, Final[.], refs.forwardref(.)}: (a) ALL admissible sequences up to length L over the 6 family "
         "keys of one base type, for each base (18^n sequences of length n; quick L=4, thorough L=6); (a') ALL admissible sequences "
         "up to length X over those 6 keys plus the 3 forward references naming the NewType / alias / string alias (27^n; X=4) - "
@@ -59,8 +59,11 @@ MODNAME = "c16_keys"
 KEYS_SRC = '''
 import dataclasses, typing
 
+_T = typing.TypeVar("_T")
+
 @dataclasses.dataclass
-class Foo:
+class Foo(typing.Generic[_T]):
+    """a user class that is also an (unsubscripted) typing.Generic: names of such classes take a different path in inspection.qualname"""
     x: int = 0
 
 IntNT = typing.NewType("IntNT", int)
@@ -112,18 +115,29 @@ class Family:
                   (("al", b), getattr(mod, CAP[b] + "Al")),
                   (("sa", b), getattr(mod, CAP[b] + "SA")),
                   (("final", b), typing.Final[T]),
-                  (("ref", b, HOME[b]), refs.forwardref(T))]
+                  (("ref", b, HOME[b]), typing.ForwardRef(T.__qualname__, module=HOME[b], is_class=True))]
             self.per_base[b] = [k for k, _ in ks]
             self.by_json.update(ks)
             # beyond the family: the forward references *naming* the three named wrappers (refs.forwardref(IntNT), …).
             # Only with them can "unwrapped form before forward reference" be observed at all.
-            xs = [(("ref", CAP[b] + SUFFIX[w], MODNAME), refs.forwardref(getattr(mod, CAP[b] + SUFFIX[w])))
+            xs = [(("ref", CAP[b] + SUFFIX[w], MODNAME), typing.ForwardRef(CAP[b] + SUFFIX[w], module=MODNAME, is_class=True))
                   for w in ("nt", "al", "sa")]
             self.extended[b] = self.per_base[b] + [k for k, _ in xs]
             self.by_json.update(xs)
         self.family = [k for b in BASES for k in self.per_base[b]]
         # every Final[...] is named by the same reference ForwardRef('Final', module='typing')
-        self.by_json[("ref", "Final", "typing")] = refs.forwardref(typing.Final[int])
+        self.by_json[("ref", "Final", "typing")] = typing.ForwardRef("Final", module="typing", is_class=True)
+        # the references are built independently of the library; what refs.forwardref makes of each named object is an observation
+        self.naming = []
+        for jk, o in list(self.by_json.items()):
+            if jk[0] in ("base", "nt", "al", "sa"):
+                want = ("ref", jk[1], HOME[jk[1]]) if jk[0] == "base" else ("ref", CAP[jk[1]] + SUFFIX[jk[0]], MODNAME)
+                try:
+                    got = refs.forwardref(o)
+                    ok = got == self.by_json[want]
+                    self.naming.append((jk, repr(got), ok))
+                except Exception as e:  # noqa: BLE001
+                    self.naming.append((jk, f"raised {type(e).__name__}: {e}"[:160], False))
         self.pool = [k for b in BASES for k in self.extended[b]] + [("ref", "Final", "typing")]
 
     def obj(self, jk):
@@ -427,7 +441,14 @@ def check_key_laws(res):
         closure[jk] = F.obj(jk)
     while todo:
         o = todo.pop()
-        for nxt in (F.unwrap(o), F.forwardref(o)):
+        steps = []
+        for fn in (F.unwrap, F.forwardref):
+            try:
+                steps.append(fn(o))
+            except Exception as e:  # noqa: BLE001  (a key function that raises on a key of the family: reported, not a crash)
+                res.failures.append({"what": f"{fn.__name__}({o!r}) raised {type(e).__name__}: {e}"[:220] + " on a key of the family",
+                                     "input": {"naming": [repr(o)]}})
+        for nxt in steps:
             jk = F.enc(nxt)
             if jk not in closure:
                 closure[jk] = nxt
@@ -458,7 +479,11 @@ def check_key_laws(res):
         if jk[0] == "unknown":
             continue
         m = next(mi)
-        u, f, r = F.unwrap(o), F.forwardref(o), isinstance(o, F.ForwardRef)
+        try:
+            u, f, r = F.unwrap(o), F.forwardref(o), isinstance(o, F.ForwardRef)
+        except Exception as e:  # noqa: BLE001
+            bad("key-function-raises", jk, f"{type(e).__name__}: {e}"[:200], m)
+            continue
         ju, jf = F.enc(u), F.enc(f)
         res.count("keylaw:keys")
         if F.unwrap(u) != u:
@@ -576,6 +601,13 @@ def explore(ctx):
         L, X, M = 5, 5, 3
 
     # 0. the hypotheses of the theorem, on the real key functions
+    for jk, shown, ok in F.naming:
+        res.case({"forwardref_of": list(jk)}, True)
+        if not ok:
+            res.failures.append({"what": f"refs.forwardref({list(jk)}) is {shown}: not the forward reference naming that type (the third lookup step of "
+                                         "TypeContext cannot find a value stored under it)", "input": {"naming": list(jk)}})
+        else:
+            res.count("oracle:forwardref-names-the-type")
     check_key_laws(res)
 
     # 0'. the two witnesses showing why the property restricts itself (theorems write_once_needed, contains_observes_memo):
@@ -691,6 +723,11 @@ def witness(fid):
 
 
 def replay(failure):
+    if "naming" in failure["input"]:
+        F = family()
+        bad = [(list(jk), shown) for jk, shown, ok in F.naming if not ok]
+        print(json.dumps({"refs.forwardref of the named keys that is not the reference naming them": bad}, indent=1))
+        return bool(bad)
     ops = failure["input"]["ops"]
     real = real_run(ops)
     orc, _ = oracle_run(ops)
